@@ -39,7 +39,15 @@ def replay_case(case: dict, props, extra_monitors=()) -> list[dict]:
 def freeze_schedule(case: dict, run) -> dict:
     """Replace the chooser specs by the recorded decision traces so that the replay is exact."""
     c = copy.deepcopy(case)
-    c["sched"] = [{"mode": "trace", "choices": inv.get("trace", [])} for inv in run.invocations] or case.get("sched")
+    specs = case.get("sched") or []
+    frozen = []
+    for i, inv in enumerate(run.invocations):
+        spec = specs[i] if i < len(specs) else None
+        if spec and spec.get("mode") == "linepreempt":
+            frozen.append(spec)  # deterministic by itself, and it carries what a decision trace cannot: the stall
+        else:
+            frozen.append({"mode": "trace", "choices": inv.get("trace", [])})
+    c["sched"] = frozen or case.get("sched")
     return c
 
 
